@@ -47,8 +47,12 @@ def check(ctx: Ctx, ev: Evidence) -> list[Finding]:
                                        effects[0].site if effects else "", witness_of(a, e)))
         else:
             if e.exc is not None:
-                ok = e.exc.cls in ("SourceFileDoesNotExist", "NoRemoteEntityCfgFound") and state_of(a, e.post) == "IDLE"
-                k = f"idle -> raises {e.exc.cls}, handler afterwards {state_of(a, e.post)}"
+                # "leaves the handler idle AND reusable": nothing of the refused request survives in the per-transaction state
+                names = h.WATCH["source"]
+                left = sorted({n for n, x, y in zip(names, e.pre, e.post) if x != y and n != "_put_req"}
+                              | {x.name for x in e.ev if x.kind == "store" and x.name.startswith("_SourceFileParams.")})
+                ok = e.exc.cls in ("SourceFileDoesNotExist", "NoRemoteEntityCfgFound") and state_of(a, e.post) == "IDLE" and not left
+                k = f"idle -> raises {e.exc.cls}, handler afterwards {state_of(a, e.post)}" + (f", state left behind by the refused request: {left}" if left else "")
             else:
                 ok = e.ret is True and state_of(a, e.post) == "BUSY"
                 k = f"idle -> returns {e.ret!r}, handler afterwards {state_of(a, e.post)}"
